@@ -89,14 +89,18 @@ func failedMarshal(n int) {
 	if n <= 0 {
 		return
 	}
-	for _, w := range []restlicodec.Writer{restlicodec.NewCompactJsonWriter(), restlicodec.NewRor2HeaderWriter()} {
-		_ = w.WriteMap(func(kw func(string) restlicodec.Writer) error {
-			for i := 0; i < n; i++ {
-				kw(fmt.Sprintf("leftover%d", i)).WriteString("leftover")
-			}
-			return errFailedMarshal
-		})
+	fails := func(kw func(string) restlicodec.Writer) error {
+		for i := 0; i < n; i++ {
+			kw(fmt.Sprintf("leftover%d", i)).WriteString("leftover")
+		}
+		return errFailedMarshal
 	}
+	for _, w := range []restlicodec.Writer{restlicodec.NewCompactJsonWriter(), restlicodec.NewRor2HeaderWriter()} {
+		_ = w.WriteMap(fails)
+	}
+	// ... and a query string whose encoder fails after n parameters (generated EncodeQueryParams of a finder whose
+	// union parameter has no member set)
+	_, _ = buildQuery(fails)
 }
 
 // pick draws an index in [0,n) roughly uniformly: rapid's integer generators are deliberately biased towards small
